@@ -7,12 +7,13 @@ blocks joining the outermost one, and the explicit `tx.rollback()` / `tx.commit(
 `Transaction` object.  Mathlib-free.
 
 A block is opened on a *context object* (`TransactionContextDecorator`), which has state of its own:
-`_tx` (the transaction this object started, if it is still running) and `_inner` (a boolean: "my block
-joined a transaction that was already running").  Two ways of using such an object are modelled:
+`_tx` (the transaction this object started, if it is still running) and `_inner` (as repaired by 02b4f5f a
+counter: how many open blocks of this object joined a transaction that was already running).  Two ways of
+using such an object are modelled:
 
 * `Ev.enter m` — `async with cache.transaction(m):` or the decorator form `@cache.transaction(m)` (whose
   `__call__` builds a new object per call): an object nobody else holds, entered exactly once.  Its two
-  fields live in the frame (`Frame.fresh inner`; `_tx` is set iff `inner = false`).
+  fields live in the frame (`Frame.fresh inner`: `_inner` is 1 or 0; `_tx` is set iff `inner = false`).
 * `Ev.enterObj o m` — `async with T[o]:` for a *shared* object `T[o] = cache.transaction(m)` that the
   program may enter again, nested in itself or sequentially.  Its fields live in `Ctx.objs o`.
 
@@ -38,12 +39,12 @@ inductive Ev where
 /-- the mutable fields of a `TransactionContextDecorator` -/
 structure Obj where
   tx    : Bool             -- `self._tx is not None`: this object started the running transaction
-  inner : Bool             -- `self._inner`
+  inner : Nat              -- `self._inner`: open blocks of this object that joined a running transaction
   deriving DecidableEq, Repr
 
 /-- an open `async with` block: which context object it was opened on -/
 inductive Frame where
-  | fresh (inner : Bool)   -- an object used for this block only; `inner` is its `_inner`, `_tx` is set iff `inner = false`
+  | fresh (inner : Bool)   -- an object used for this block only; `inner`: its `_inner` is 1 (else 0), `_tx` is set iff `inner = false`
   | shared (o : Nat)       -- the shared object `o`; its fields are `Ctx.objs o`
   deriving DecidableEq, Repr
 
@@ -58,7 +59,7 @@ namespace Ctx
 
 def init (b : Mem) (timeout : Nat) : Ctx :=
   { st := TxSt.begin_ b .fast 0 timeout, inTx := false, frames := [], nextId := 1,
-    objs := fun _ => ⟨false, false⟩ }           -- `self._inner = False; self._tx = None`
+    objs := fun _ => ⟨false, 0⟩ }               -- `self._inner = 0; self._tx = None`
 
 /-- assign the fields of the shared object `o` -/
 def setObj (f : Nat → Obj) (o : Nat) (v : Obj) : Nat → Obj := fun x => if x = o then v else f x
@@ -66,14 +67,14 @@ def setObj (f : Nat → Obj) (o : Nat) (v : Obj) : Nat → Obj := fun x => if x 
 def step (c : Ctx) : Ev → Ctx × Out
   | .enter m =>
     if c.inTx then
-      ({ c with frames := .fresh true :: c.frames }, .unit)   -- `if self.current_tx: self._inner = True; return self.current_tx`
+      ({ c with frames := .fresh true :: c.frames }, .unit)   -- `if self.current_tx: self._inner += 1; return self.current_tx`
     else                                                      -- `return self.start()`
       ({ c with st := TxSt.begin_ c.st.b m c.nextId c.st.timeout, inTx := true,
                 frames := .fresh false :: c.frames, nextId := c.nextId + 1 }, .unit)
   | .enterObj o m =>
-    if c.inTx then                                            -- `if self.current_tx: self._inner = True; return self.current_tx`
+    if c.inTx then                                            -- `if self.current_tx: self._inner += 1; return self.current_tx`
       ({ c with frames := .shared o :: c.frames,
-                objs := setObj c.objs o { c.objs o with inner := true } }, .unit)
+                objs := setObj c.objs o { c.objs o with inner := (c.objs o).inner + 1 } }, .unit)
     else                                                      -- `start()`: `self._tx = tx; self._return_token = _transaction.set(tx)`
       ({ c with st := TxSt.begin_ c.st.b m c.nextId c.st.timeout, inTx := true,
                 frames := .shared o :: c.frames, nextId := c.nextId + 1,
@@ -81,12 +82,13 @@ def step (c : Ctx) : Ev → Ctx × Out
   | .exit exc =>
     match c.frames with
     | [] => (c, .err)                                         -- no open block: not a program
-    | .fresh true :: fr => ({ c with frames := fr }, .unit)   -- `if not self._tx or self._inner: self._inner = False; return`
+    | .fresh true :: fr => ({ c with frames := fr }, .unit)   -- `if self._inner: self._inner -= 1; return`
     | .fresh false :: fr =>                                   -- `if not exc_tb: commit() else: rollback()` … `finally: close()`
       ({ c with st := if exc then c.st.rollback else c.st.commit, inTx := false, frames := fr }, .unit)
     | .shared o :: fr =>
-      if !(c.objs o).tx || (c.objs o).inner then              -- `if not self._tx or self._inner: self._inner = False; return`
-        ({ c with frames := fr, objs := setObj c.objs o { c.objs o with inner := false } }, .unit)
+      if (c.objs o).inner ≠ 0 then                            -- `if self._inner: self._inner -= 1; return`
+        ({ c with frames := fr, objs := setObj c.objs o { c.objs o with inner := (c.objs o).inner - 1 } }, .unit)
+      else if !(c.objs o).tx then ({ c with frames := fr }, .unit)   -- `if not self._tx: return`
       else                                                    -- commit / rollback, `close()`: `self._tx = None; _transaction.reset(token)`
         ({ c with st := if exc then c.st.rollback else c.st.commit, inTx := false, frames := fr,
                   objs := setObj c.objs o { c.objs o with tx := false } }, .unit)
@@ -115,7 +117,7 @@ def run (c : Ctx) : List Ev → Ctx × List Out
 
 end Ctx
 
-/-! ### Which programs re-enter a context object, syntactically -/
+/-! ### The context objects of the open blocks, syntactically -/
 
 /-- The context objects of the open blocks: the outermost one (`owner`: `none` = no block open,
 `some none` = an object of its own, `some (some o)` = shared object `o`) and the blocks nested in it,
@@ -145,23 +147,6 @@ def depth (n : Nest) : Nat :=
   | none => 0
   | some _ => n.inner.length + 1
 
-/-- entering `o` now would be the third simultaneous block of the object that opened the transaction -/
-def deep (n : Nest) (o : Nat) : Bool := decide (n.owner = some (some o)) && decide (some o ∈ n.inner)
-
 end Nest
-
-/-- **The re-entry bound.**  `true` iff the program never enters the shared object that opened the
-running transaction while a second block of that very object is still open — i.e. no context object
-*that owns a transaction* is active three times at once.  (Re-entering it once, re-entering other
-objects any number of times, any depth of nesting and sequential re-use are all allowed.)
-The `_inner` field of the real code is a boolean, not a counter: see `Props/C03.lean`. -/
-def reentryBounded : Nest → List Ev → Bool
-  | _, [] => true
-  | n, .enter _ :: es => reentryBounded (n.push none) es
-  | n, .enterObj o _ :: es => !n.deep o && reentryBounded (n.push (some o)) es
-  | n, .exit _ :: es => reentryBounded n.pop es
-  | n, .cmd _ :: es => reentryBounded n es
-  | n, .rollback :: es => reentryBounded n es
-  | n, .commit :: es => reentryBounded n es
 
 end CashewsVerif
